@@ -71,6 +71,16 @@ def call(obj, with_z, with_t, arr=False):
     elif arr == "intarr":
         x, y = np.array([2, -1, 0]), np.array([1, 4, -2])
         z = np.array([3, 3, 1]) if with_z else None
+    elif arr == "0d":             # zero-dimensional arrays and numpy scalars
+        x, y = np.array(X), np.float64(Y)
+        z = np.array(Z) if with_z else None
+    elif arr == "len1":
+        x, y = np.array([X]), np.array([Y])
+        z = np.array([Z]) if with_z else None
+    elif arr == "big":            # long arrays, large and tiny coordinates
+        k_ = np.arange(2000, dtype=float)
+        x, y = 1e6 * np.cos(k_) + X, 1e-9 * np.sin(k_) + Y
+        z = (k_ * 1e-3 + Z) if with_z else None
     else:
         x, y = (np.array([X, X + 1, 2 * X]), np.array([Y, Y + 0.5, 3 * Y])) if arr else (X, Y)
         z = (np.array([Z, Z, Z + 1]) if arr else Z) if with_z else None
@@ -121,7 +131,8 @@ def run(rep: common.Report, tier: str, seed: int, replay=None) -> int:
     trees = d1 + d2 if tier == "thorough" else d1 + rng.sample(d2, 6000)
     for c in trees:
         for wz, wt, arr in ((True, True, False), (False, True, False), (False, True, True), (True, False, True),
-                            (False, True, "int"), (True, True, "intarr")):
+                            (False, True, "int"), (True, True, "intarr"), (False, True, "0d"), (True, True, "len1"),
+                            (False, True, "big")):
             got = call(c, wz, wt, arr)
             lv, rv = value_of(c.left, wz, wt, arr), value_of(c.right, wz, wt, arr)
             if lv[0] != "val":
